@@ -51,6 +51,12 @@ class Run(object):
         self.closed_ok = False
         if disposition == 'exited' and self.proc is not None:
             env.procs.exit(self.proc, 5)
+        if disposition == 'peer-closes' and self.proc is None:
+            self.link.close()                 # the peer closes its end at some point of the sequence (EOF)
+        if disposition == 'kill-esrch' and self.proc is not None:
+            # fault answer: kill() on the just-died, still unreaped child says ESRCH (the library has an
+            # "except OSError" branch for exactly such 'kernel timing issues' in terminate())
+            env.procs.esrch_on_zombie = True
         if fate is not None and self.proc is not None:
             kind, val = fate[0], fate[1]
             if kind == 'exit':
@@ -133,6 +139,12 @@ class Run(object):
                 out = ('ret', sp.terminate())
             elif op == 'terminate_force':
                 out = ('ret', sp.terminate(force=True))
+            elif op == 'closed_logfile':
+                import io
+                f = io.BytesIO() if sp.encoding is None else io.StringIO()
+                f.close()
+                sp.logfile = f                 # e.g. "with open(...) as log:" has ended before the spawn is closed
+                out = ('ret', None)
             elif op == 'close':
                 out = ('ret', sp.close())
             elif op == 'close_noforce':
@@ -225,6 +237,10 @@ class Run(object):
                     self.fail('not-reaped', '%s returned but the child is %s' % (op, p.state))
             if op in ('close', 'close_noforce', 'with_exit') and was_closed and len(p.signals) != nsig0:
                 self.fail('close-not-idempotent', 'second %s sent signals %r' % (op, p.signals[nsig0:]))
+        if op in ('close', 'with_exit') and out[0] == 'exc' and not was_closed:
+            self.fail('close-failed', '%s raised %r: the child is %s and descriptor %d is %s'
+                      % (op, out[1], p.state if p is not None else 'n/a', self.fd0,
+                         'still open' if self._fd_valid(self.fd0) else 'released'))
         if op in ('close', 'close_noforce', 'with_exit'):
             if out[0] == 'ret':
                 self.closed_ok = True
